@@ -91,7 +91,7 @@ def isKg (w : List Char) : Bool :=
 def specificCode (rn : List (List Atom × String)) (rules : List Rule) (ev g ag : List Char) : Option (List Char) :=
   if !isThrowGeneric ev then some ev else
   let w := weight rn rules ev g ag
-  if w.isEmpty then none else
+  if w.isEmpty then some ev else       -- no implement known for this age group: the generic code
   some (ev ++ collapse w ++ (if isKg w then ['K'] else []))
 
 end AthlibVerif.Implements
